@@ -39,9 +39,8 @@ VARIANTS = {
     # generic C++ fallbacks: no SSE/AES/int128 macros -> struct based vectors, fenv rounding, 32x32 mulh
     'portable': dict(cc='gcc', cxx='g++', flags=['-O2', '-DNDEBUG', '-fPIC', '-fvisibility=hidden',
                                                   '-frounding-math'] + PORTABLE_U,
-                     skip=['jit_compiler_x86.cpp', 'jit_compiler_x86_static.S', 'argon2_ssse3.c', 'argon2_avx2.c',
-                           'assembly_generator_x86.cpp'],
-                     extra_src=[os.path.join(VERIF, 'harness', 'portable_stubs.cpp')]),
+                     skip=['jit_compiler_x86.cpp', 'jit_compiler_x86_static.S', 'assembly_generator_x86.cpp'], no_per_file=True,
+                     extra_src=[os.path.join(VERIF, 'harness', 'portable_stubs.cpp'), os.path.join(VERIF, 'harness', 'portable_shim.cpp')]),
 }
 
 
@@ -120,7 +119,11 @@ class Lock:
 
 
 def variant_dir(variant):
-    return os.path.join(BUILD, '%s-%s' % (variant, tree_hash()))
+    extra = VARIANTS.get(variant, {}).get('extra_src', [])
+    h = tree_hash()
+    if extra:
+        h = sha(h, *[open(e, 'rb').read() for e in extra])[:16]
+    return os.path.join(BUILD, '%s-%s' % (variant, h))
 
 
 def prune(variant):
@@ -153,7 +156,7 @@ def ensure_lib(variant):
                 cmd = [v['cc']] + [f for f in v['flags'] if not f.startswith('-fsanitize')]
             else:
                 cmd = [v['cc']] + v['flags']
-            cmd += PER_FILE.get(s, []) + ['-Wno-error', '-w', '-I', os.path.join(REPO, 'src'), '-c', p, '-o', '@OUT@']
+            cmd += ([] if v.get('no_per_file') else PER_FILE.get(s, [])) + ['-Wno-error', '-w', '-I', os.path.join(REPO, 'src'), '-c', p, '-o', '@OUT@']
             jobs.append((cmd, o))
         compile_many(jobs)
         tmp = lib + '.tmp'
@@ -163,6 +166,26 @@ def ensure_lib(variant):
         os.replace(tmp, lib)
         prune(variant)
     return lib
+
+
+def ensure_portable_so():
+    """librx_portable.so: the generic C++ fallback build, only pv_* exported (C17)."""
+    lib = ensure_lib('portable')
+    d = variant_dir('portable')
+    key = sha(open(os.path.join(VERIF, 'harness', 'portable_shim.cpp'), 'rb').read(), open(os.path.join(VERIF, 'harness', 'portable_stubs.cpp'), 'rb').read())[:10]
+    so = os.path.join(d, 'librx_portable-%s.so' % key)
+    if os.path.exists(so):
+        return so
+    with Lock('portable-so'):
+        if os.path.exists(so):
+            return so
+        objs = sorted(glob.glob(os.path.join(d, 'obj', '*.o')))
+        cmd = ['g++', '-shared', '-o', so + '.tmp', '-Wl,-Bsymbolic', '-Wl,--wrap=_Z11fillAes4Rx4ILb0EEvPvmS0_', '-Wl,--wrap=_Z11fillAes4Rx4ILb1EEvPvmS0_'] + objs + ['-lpthread']
+        r = sh(cmd)
+        if r.returncode != 0:
+            raise BuildError('portable .so link failed:\n' + r.stdout[-4000:])
+        os.replace(so + '.tmp', so)
+    return so
 
 
 def verif_headers_hash():
@@ -493,6 +516,12 @@ def run_check(prop, tier, seed):
                            dict(evaluations=0, distinct_nontrivial=0, rule=spec['rule'], samples=[], build_error=str(e)[-2000:]),
                            spec['assumptions'], time.time() - t0, 0)
             return 2
+        if callable(stage.get('env')):
+            try:
+                stage = dict(stage, env=stage['env'](sys.modules[__name__]))
+            except BuildError as e:
+                print('BUILD-ERROR for %s:\n%s' % (prop, e))
+                return 2
         plan = stage['plan'][tier]
         nworkers = stage.get('workers', {}).get(tier, JOBS)
         results, tmpd = run_workers(exe, prop, tier, seed, plan, nworkers, stage.get('env'), stage.get('timeout', {}).get(tier),
